@@ -25,7 +25,7 @@ type c04Case struct {
 }
 
 const (
-	c04Window   = 30 * time.Second
+	c04Window   = 20 * time.Second
 	c04Interval = 10 * time.Second
 )
 
@@ -376,7 +376,7 @@ func c04Run(e *vh.Env, c c04Case, seq string, bes []*vh.Backend, o *vh.Out) {
 		case 'a':
 			time.Sleep(3300 * time.Millisecond)
 		case 'W':
-			time.Sleep(31700 * time.Millisecond)
+			time.Sleep(21700 * time.Millisecond)
 		case 'p':
 			w.S.SetProbe(200, 0)
 			w.toNextTick(200 * time.Millisecond)
@@ -511,7 +511,7 @@ func init() {
 			o.Eval(n)
 			o.DistinctCount(n)
 			if c.Strategy == "weighted_round_robin" && c.Thr == 2 && c.Active && c.Passive && c.Prefix == "f" {
-				o.Sample(map[string]any{"part": "histories", "case": c, "example_sequence": "ffWg", "alphabet": "g=good response f=5xx u=unreachable a=+3.3s W=+31.7s D=refused add under the same name p=probe ok at next tick q=probe fails at next tick X=slow ok probe overlapping a passive ejection"})
+				o.Sample(map[string]any{"part": "histories", "case": c, "example_sequence": "ffWg", "alphabet": "g=good response f=5xx u=unreachable a=+3.3s W=+21.7s D=refused add under the same name p=probe ok at next tick q=probe fails at next tick X=slow ok probe overlapping a passive ejection"})
 			}
 		})
 
